@@ -521,9 +521,9 @@ LAWS = [
         rule='(n, radix[, places]): 0 <= n < 2^39 with radix 2..36 -> digits 0-9A-Z denote n positionally and DECIMAL inverts; invalid radix (-1,0,1,37,100, fractional outside 2..36) or negative n -> error; every call under the step budget'),
     Law('roman', check_roman, enumerate=enum_roman, exhaustive=True, shards=(8, 8), weight=lambda n: 5 if 1 <= n <= 3999 else 1,
         rule='all n = 1..3999 x forms 0..4 (19995 calls) + {0, 4000, -1, 4001, -3999}: every form denotes n under the general subtractive evaluator, ARABIC inverts the classic form, conciseness is monotone'),
-    Law('complex', check_complex, strategy=st.fixed_dictionaries({'a': st.integers(-10 ** 6, 10 ** 6), 'b': st.integers(-10 ** 6, 10 ** 6), 'var': st.booleans()}), quick=1000, thorough=50000,
+    Law('complex', check_complex, strategy=st.fixed_dictionaries({'a': st.one_of(st.integers(-10 ** 6, 10 ** 6), st.integers(-10 ** 15, 10 ** 15), st.sampled_from([1234567, 2147483647, -2147483648, 10 ** 15 - 1])), 'b': st.one_of(st.integers(-10 ** 6, 10 ** 6), st.integers(-10 ** 15, 10 ** 15)), 'var': st.booleans()}), quick=1000, thorough=50000,
         nontrivial=lambda c: c['a'] < 0 or c['b'] < 0,
-        rule='integer parts |a|,|b| <= 10^6: IMREAL/IMAGINARY(COMPLEX(a,b))'),
+        rule='integer parts |a|,|b| up to 10^15 (exact in the doubles a complex number is made of): IMREAL/IMAGINARY(COMPLEX(a,b))'),
     Law('termination', check_term, enumerate=enum_term, key=term_key, shards=(8, 16),
         rule='25 function/arity pairs x a 26-value boundary pool (incl. inf, nan, text, blank, logicals): each call returns a well-formed record within the step budget'),
 ]
